@@ -178,11 +178,11 @@ func (r *replication) replicate(c *conn, req *appendReq) error {
 			}()
 			for {
 				err := r.writeAppendEntriesReq(c, req, true)
-				select {
-				case <-stopCh:
-					return
-				case resultCh <- result{r.nextIndex - 1, err}:
-				}
+				// a request that went out must always be reported, even if we
+				// were told to stop meanwhile: otherwise its response stays
+				// unread in the connection, and whoever uses the connection
+				// next takes it for the response to another request
+				resultCh <- result{r.nextIndex - 1, err}
 				if err != nil {
 					return
 				}
@@ -205,12 +205,14 @@ func (r *replication) replicate(c *conn, req *appendReq) error {
 		}()
 
 		drainResps := func() error {
+			// always consumes resultCh until the writer has closed it
+			var err error
 			for range resultCh {
-				if err := c.readResp(resp, r.deadline()); err != nil {
-					return err
+				if err == nil {
+					err = c.readResp(resp, r.deadline())
 				}
 			}
-			return nil
+			return err
 		}
 		drainRespsTimeout := func(timeout time.Duration) {
 			drained := make(chan error, 1)
